@@ -1,22 +1,17 @@
 #[cfg(kani)]
 mod verif_rtenload {
     use super::*;
-    use rten_tensor::prelude::*;
     use rten_tensor::Storage;
+    use rten_tensor::prelude::*;
 
     /// Bytes of backing storage (the "file").
     pub const STORAGE: usize = 16;
-    /// Maximum tensor rank.
-    pub const RANK: usize = 3;
 
-    /// Stub for `alloc::fmt::format` (error-message formatting only; listed as an assumption).
-    pub fn format_stub(_args: core::fmt::Arguments<'_>) -> String {
-        String::new()
-    }
+    // ------------------------------------------------------------------ ghost arithmetic
 
     /// Product of `shape` over the integers; `None` if it exceeds `usize::MAX`.
-    /// (Zero dims give 0 whatever the other dims are; otherwise the product is monotone, so it
-    /// fits iff every prefix product fits.)
+    /// (A zero dim gives 0 whatever the other dims are; otherwise the product is monotone in
+    /// its prefixes, so it fits iff every prefix product fits.)
     pub fn int_product(shape: &[usize]) -> Option<usize> {
         let mut i = 0;
         while i < shape.len() {
@@ -34,8 +29,10 @@ mod verif_rtenload {
         Some(p)
     }
 
-    /// True iff every prefix product of `shape`, taken over the integers, fits in usize.
-    pub fn prefix_products_fit(shape: &[usize]) -> bool {
+    /// True iff the element count and every row-major stride of `shape` are representable:
+    /// every prefix product and every suffix product of the dims, over the integers, fits in
+    /// usize. (Without zero dims this is just "the element count fits in usize".)
+    pub fn dims_representable(shape: &[usize]) -> bool {
         let mut p: usize = 1;
         let mut i = 0;
         while i < shape.len() {
@@ -45,15 +42,16 @@ mod verif_rtenload {
             }
             i += 1;
         }
+        let mut p: usize = 1;
+        let mut i = shape.len();
+        while i > 0 {
+            i -= 1;
+            match p.checked_mul(shape[i]) {
+                Some(q) => p = q,
+                None => return false,
+            }
+        }
         true
-    }
-
-    /// Backing storage: symbolic bytes, symbolic length 0..=STORAGE.
-    pub fn any_storage() -> Arc<ConstantStorage> {
-        let data: [u8; STORAGE] = kani::any();
-        let n: usize = kani::any();
-        kani::assume(n <= STORAGE);
-        Arc::new(ConstantStorage::Buffer(data[..n].to_vec()))
     }
 
     /// The postcondition C05 demands of a loaded constant: its element count, computed over the
@@ -65,14 +63,44 @@ mod verif_rtenload {
         }
     }
 
-    /// Input classes, defined over the integers only (not by the code's evaluation order):
-    ///   0 = in range: all prefix products of shape, product * size_of::<T>() and
-    ///       offset + product * size_of::<T>() fit in usize
-    ///   1 = some prefix product of the dims exceeds usize::MAX
-    ///   2 = dims fine, but product * size_of::<T>() exceeds usize::MAX
+    // ------------------------------------------------------------------ input generators
+
+    /// A dimension size `hi * 2^56 + lo` with symbolic bytes `hi`, `lo` (bits 8..56 are zero).
+    /// Contains all small sizes 0..=255 and sizes >= 2^56 up to 0xff000000000000ff, so products
+    /// of two or three dims range from 0 to far beyond 2^64. (Full-width symbolic dims make
+    /// the proof depend on 64-bit commutativity of `*`, which the SAT back end does not decide.)
+    pub fn any_dim() -> usize {
+        let hi: u8 = kani::any();
+        let lo: u8 = kani::any();
+        ((hi as usize) << 56) | (lo as usize)
+    }
+
+    pub fn any_shape<const R: usize>() -> [usize; R] {
+        let mut dims = [0usize; R];
+        let mut i = 0;
+        while i < R {
+            dims[i] = any_dim();
+            i += 1;
+        }
+        dims
+    }
+
+    /// Backing storage: STORAGE symbolic bytes.
+    pub fn any_storage() -> Arc<ConstantStorage> {
+        let data: [u8; STORAGE] = kani::any();
+        Arc::new(ConstantStorage::Buffer(data.to_vec()))
+    }
+
+    // ------------------------------------------------------------------ constant_data_from_storage_offset
+
+    /// Input classes for `constant_data_from_storage_offset::<T>(storage, shape, offset)`, defined
+    /// over the integers only:
+    ///   0 = in range: dims representable, count * size_of::<T>() and offset + byte length fit in usize
+    ///   1 = dims not representable (element count or a stride exceeds usize::MAX)
+    ///   2 = dims fine, but count * size_of::<T>() exceeds usize::MAX
     ///   3 = those fine, but offset + byte length exceeds usize::MAX
     pub fn input_class<T>(shape: &[usize], offset: usize) -> u8 {
-        if !prefix_products_fit(shape) {
+        if !dims_representable(shape) {
             return 1;
         }
         let mut p: usize = 1;
@@ -90,45 +118,184 @@ mod verif_rtenload {
         0
     }
 
-    /// Contract harness for the real `constant_data_from_storage_offset::<T>` restricted to one
-    /// input class: never panics / overflows / reads out of bounds; `Ok(c)` implies the element
-    /// count of `c` matches its backing data.
-    pub fn storage_offset_contract<T: LeBytes + FromByteArray>(class: u8) {
+    /// Contract harness for the real `constant_data_from_storage_offset::<T>` on one input class:
+    /// never panics / overflows / reads out of bounds (Kani default checks), and `Ok(c)` implies
+    /// that the element count of `c` over the integers equals the length of its backing data.
+    /// The returned value is forgotten, not dropped (the drop glue of `Box<dyn Error>` inside
+    /// `LoadError` fans out over every error type of the crate and is not under check).
+    /// Returns whether the call returned `Ok`.
+    pub fn storage_offset_contract<T: LeBytes + FromByteArray, const R: usize>(lo_class: u8, hi_class: u8) -> bool {
         let storage = any_storage();
-        let dims: [usize; RANK] = kani::any();
-        let rank: usize = kani::any();
-        kani::assume(rank <= RANK);
-        let shape = &dims[..rank];
+        let dims: [usize; R] = any_shape::<R>();
+        let shape = &dims[..];
         let offset: usize = kani::any();
-        kani::assume(input_class::<T>(shape, offset) == class);
+        let class = input_class::<T>(shape, offset);
+        kani::assume(lo_class <= class && class <= hi_class);
         let r = constant_data_from_storage_offset::<T>(&storage, shape, offset, None);
-        match r {
+        match &r {
             Ok(c) => {
                 assert!(
-                    count_matches_data(&c),
+                    count_matches_data(c),
                     "Ok(constant): element count over the integers must equal the backing data length"
                 );
-                kani::cover!(rank == RANK, "Ok reachable with maximum rank");
             }
-            Err(_) => {
-                kani::cover!(true, "Err reachable");
-            }
+            Err(_) => {}
         }
-        kani::cover!(rank == RANK, "class reachable with maximum rank");
+        kani::cover!(class == lo_class, "input class reachable");
+        kani::cover!(class == hi_class, "input class reachable");
+        let ok = r.is_ok();
+        std::mem::forget(r);
+        std::mem::forget(storage);
+        ok
     }
 
     #[kani::proof]
-    #[kani::unwind(20)]
-    #[kani::stub(alloc::fmt::format, format_stub)]
+    #[kani::unwind(8)]
     pub fn storage_offset_i32_in_range() {
-        storage_offset_contract::<i32>(0);
+        let ok = storage_offset_contract::<i32, 2>(0, 0);
+        kani::cover!(ok, "Ok reachable");
+        kani::cover!(!ok, "Err reachable");
     }
 
     #[kani::proof]
-    #[kani::unwind(20)]
-    #[kani::stub(alloc::fmt::format, format_stub)]
-    pub fn storage_offset_i32_dims_product_overflow() {
-        storage_offset_contract::<i32>(1);
+    #[kani::unwind(8)]
+    pub fn storage_offset_i32_dims_overflow() {
+        storage_offset_contract::<i32, 2>(1, 1);
+    }
+
+    #[kani::proof]
+    #[kani::unwind(8)]
+    pub fn storage_offset_i32_byte_range_overflow() {
+        storage_offset_contract::<i32, 2>(2, 3);
+    }
+
+    // ------------------------------------------------------------------ constant_data_from_flatbuffers_vec
+
+    /// `constant_data_from_flatbuffers_vec` returns `ConstantNodeData<T>` today; a repair that
+    /// reports length mismatches has to return a `Result`. Accept either shape of return value.
+    pub trait LoadedConstant<T> {
+        fn loaded(&self) -> Option<&ConstantNodeData<T>>;
+    }
+    impl<T> LoadedConstant<T> for ConstantNodeData<T> {
+        fn loaded(&self) -> Option<&ConstantNodeData<T>> {
+            Some(self)
+        }
+    }
+    impl<T, E> LoadedConstant<T> for Result<ConstantNodeData<T>, E> {
+        fn loaded(&self) -> Option<&ConstantNodeData<T>> {
+            self.as_ref().ok()
+        }
+    }
+
+    /// Inline constant data: a flatbuffers vector `[u32 count][count * size_of::<T>() bytes]` at
+    /// byte `loc` of the storage (loc = 0: payload 4-byte aligned => zero-copy view; loc = 1:
+    /// unaligned => copied), with a shape that is not tied to `count` in any way -- the
+    /// flatbuffers verifier checks that the vector lies inside the buffer (assumed here), not
+    /// that it agrees with the `shape` field. `matching` selects the input class
+    /// "integer product of shape == count" or its complement.
+    /// Returns (loaded, loc, count).
+    pub fn flatbuffers_vec_contract<T, const R: usize>(matching: bool) -> (bool, usize, u32)
+    where
+        T: FromByteArray + for<'a> flatbuffers::Follow<'a, Inner = T>,
+    {
+        let mut data: [u8; STORAGE] = kani::any();
+        let loc: usize = kani::any();
+        kani::assume(loc <= 1);
+        let count: u32 = kani::any();
+        // flatbuffers verifier guarantee: the vector payload lies inside the buffer.
+        kani::assume(loc + 4 + (count as usize) * std::mem::size_of::<T>() <= STORAGE);
+        let cb = count.to_le_bytes();
+        data[loc] = cb[0];
+        data[loc + 1] = cb[1];
+        data[loc + 2] = cb[2];
+        data[loc + 3] = cb[3];
+        let storage = Arc::new(ConstantStorage::Buffer(data.to_vec()));
+        let dims: [usize; R] = any_shape::<R>();
+        let shape = &dims[..];
+        let is_match = dims_representable(shape) && int_product(shape) == Some(count as usize);
+        kani::assume(is_match == matching);
+        // Safety: `storage.data()` holds a count-prefixed vector at `loc` (constructed above).
+        let fb_vec = unsafe { flatbuffers::Vector::<T>::new(storage.data(), loc) };
+        let r = constant_data_from_flatbuffers_vec(&storage, fb_vec, shape);
+        if let Some(c) = r.loaded() {
+            assert!(
+                count_matches_data(c),
+                "loaded inline constant: element count over the integers must equal the data length"
+            );
+        }
+        kani::cover!(count > 0, "class reachable with non-empty data");
+        let loaded = r.loaded().is_some();
+        std::mem::forget(r);
+        std::mem::forget(storage);
+        (loaded, loc, count)
+    }
+
+    #[kani::proof]
+    #[kani::unwind(8)]
+    pub fn flatbuffers_vec_i32_matching_shape() {
+        let (loaded, loc, count) = flatbuffers_vec_contract::<i32, 2>(true);
+        kani::cover!(loaded && loc == 0 && count > 0, "zero-copy view reachable");
+        kani::cover!(loaded && loc == 1 && count > 0, "copied data reachable");
+    }
+
+    #[kani::proof]
+    #[kani::unwind(8)]
+    pub fn flatbuffers_vec_i32_mismatched_shape() {
+        let _ = flatbuffers_vec_contract::<i32, 2>(false);
+    }
+
+    // ------------------------------------------------------------------ load(): header -> model slice
+
+    pub static mut ROOT_AS_MODEL_CALLS: u32 = 0;
+
+    /// Stub for `rten_model_file::schema::root_as_model` (the flatbuffers verifier, not under
+    /// check): records the call and reports an invalid buffer, so that `load` returns right after
+    /// the header decision and the `&file_data[offset..offset + len]` slice expression.
+    pub fn root_as_model_stub(_buf: &[u8]) -> Result<sg::Model<'_>, flatbuffers::InvalidFlatbuffer> {
+        unsafe {
+            ROOT_AS_MODEL_CALLS += 1;
+        }
+        Err(flatbuffers::InvalidFlatbuffer::TooManyTables)
+    }
+
+    /// Stubs for the two callees of `load` that come after the parser (`load_graph`,
+    /// `Graph::prepack_weights`). They are never executed -- the parser stub returns `Err`
+    /// first -- but without them Kani's static reachability pulls in the whole inference
+    /// engine (operators, optimizer, thread pool), which it cannot compile.
+    pub fn load_graph_stub(
+        _serialized_graph: sg::Graph,
+        _registry: &OpRegistry,
+        _storage: Arc<ConstantStorage>,
+        _tensor_data_offset: Option<u64>,
+        _optimize: OptimizeMode,
+        _capture_env: Option<&CaptureEnv>,
+    ) -> Result<Graph, LoadError> {
+        Err(LoadErrorImpl::UnknownFileType.into())
+    }
+    pub fn prepack_weights_stub(_graph: &Graph, _cache: &mut WeightCache) {}
+
+    pub const FILE: usize = 40;
+
+    /// The real `load` on a symbolic file prefix (symbolic header bytes, file length FILE):
+    /// `Header::from_buf` (real) followed by the model-data slice expression must not panic,
+    /// overflow or index out of bounds, whatever the header fields are.
+    #[kani::proof]
+    #[kani::unwind(8)]
+    #[kani::stub(rten_model_file::schema::root_as_model, root_as_model_stub)]
+    #[kani::stub(load_graph, load_graph_stub)]
+    #[kani::stub(crate::graph::Graph::prepack_weights, prepack_weights_stub)]
+    pub fn load_header_model_slice() {
+        let data: [u8; FILE] = kani::any();
+        let header_ok = Header::from_buf(&data[..]).is_ok();
+        let storage = Arc::new(ConstantStorage::Buffer(data.to_vec()));
+        let options = ModelOptions::with_ops(OpRegistry::with_ops(&[]));
+        let r = load(storage, &options);
+        let calls = unsafe { ROOT_AS_MODEL_CALLS };
+        kani::cover!(header_ok && calls == 1, "valid header: slice expression evaluated, parser reached");
+        kani::cover!(!header_ok && calls == 1, "no RTEN magic: whole file handed to the parser");
+        kani::cover!(calls == 0, "invalid header rejected");
+        std::mem::forget(r);
+        std::mem::forget(options);
     }
 
     #[kani::proof]
